@@ -907,7 +907,13 @@ func (c *compiler) evalCallExpression(node *ast.CallExpression) (interface{}, er
 		}
 
 		if ff, ok := f.(*userFunction); ok {
-			return c.evalUserFunction(ff, node.Arguments)
+			result, err := c.evalUserFunction(ff, node.Arguments)
+			if err != nil || node.ChainCallee == nil {
+				return result, err
+			}
+			// the path goes on after the call of a template function as it
+			// does after the call of a Go function
+			return c.evalChainCallee(node, result)
 		}
 
 		rv = reflect.ValueOf(f)
@@ -1083,29 +1089,31 @@ func (c *compiler) evalCallExpression(node *ast.CallExpression) (interface{}, er
 			return nil, fmt.Errorf("could not call %s function: %w", node.Function, e)
 		}
 		if node.ChainCallee != nil {
-			octx := c.ctx
-			defer func() {
-				c.ctx = octx
-			}()
-
-			c.ctx = c.newScope()
-			// the rest of the path starts at an identifier the parser made
-			// up for the result of this call
-			key, ok := chainRootName(node.ChainCallee)
-			if !ok {
-				return nil, fmt.Errorf("could not evaluate %s after the call", node.ChainCallee.String())
-			}
-			c.ctx.Set(key, res[0].Interface())
-			vvs, err := c.evalExpression(node.ChainCallee)
-			if err != nil {
-				return nil, err
-			}
-			return vvs, err
+			return c.evalChainCallee(node, res[0].Interface())
 		}
 		return res[0].Interface(), nil
 	}
 
 	return nil, nil
+}
+
+// evalChainCallee evaluates the rest of a path that goes on after a call:
+// f(x).Name, f(x).Items[0].Label().
+func (c *compiler) evalChainCallee(node *ast.CallExpression, result interface{}) (interface{}, error) {
+	octx := c.ctx
+	defer func() {
+		c.ctx = octx
+	}()
+
+	c.ctx = c.newScope()
+	// the rest of the path starts at an identifier the parser made
+	// up for the result of this call
+	key, ok := chainRootName(node.ChainCallee)
+	if !ok {
+		return nil, fmt.Errorf("could not evaluate %s after the call", node.ChainCallee.String())
+	}
+	c.ctx.Set(key, result)
+	return c.evalExpression(node.ChainCallee)
 }
 
 func (c *compiler) evalForExpression(node *ast.ForExpression) (interface{}, error) {
